@@ -308,6 +308,19 @@ def run_file(datadir, fname, cfg):
                     continue
                 lazy_cmp("dask-project", k, br, cp, annp, e[fld], [steps, fld])
 
+    # (1b) the graph computed in OTHER processes (dask's process scheduler / a cluster): workers unpickle the branches and their
+    #      interpretations and import the package afresh - everything the read needs must be in place there without this process' history
+    for k in [x for x in lazy_ok if "Digi" in x][:1] + [x for x in symm][:1] + [x for x in lazy_ok if "Digi" not in x and x not in symm][:1] if cfg.get("process_scheduler") else []:
+        br = tree[k]
+        case("dask-processes", k)
+        try:
+            d = uproot.dask({fn: "Event/" + k}, steps_per_file=2)
+            c = d.compute(scheduler="processes", num_workers=2)[br.name]
+        except Exception as ex:  # noqa: BLE001
+            mm("dask-processes-exception", k, [2], {"type_equal": False, "values_equal": False, "got_type": exmsg(ex)})
+            continue
+        lazy_cmp("dask-processes", k, br, c, None, eager[k], [2])
+
     # (2) several branches in one lazy collection, projected to one branch each before compute()
     plain = [k for k in lazy_ok if k not in symm]
     for gsteps in (cfg.get("group_steps_list", [cfg["group_steps"]]) if plain else []):
